@@ -5,16 +5,6 @@ Import ListNotations.
 Require Import Verif.Lib.Wire Verif.Lib.C20Types Verif.Gen.Facts_C20 Verif.Model.C20 Verif.Proofs.C20.
 Require Verif.Model.C04.
 
-Definition run_ids (evs : list C04.event) : list N :=
-  flat_map (fun e => match e with C04.Run a => [a] | C04.Force _ => [] end) evs.
-
-(* execute_actions registers the introspectables of an action right after its
-   callable ran, so what is registered follows the Run events of the log,
-   whatever the final outcome (done, conflict, refusal) *)
-Definition commit_and_register (introspection : bool) (acts : list C04.action)
-           (intrs_of : N -> list (intr * list relop)) : res st :=
-  commit_register introspection init (map intrs_of (run_ids (snd (C04.commit acts)))).
-
 Lemma in_run_ids a evs : In a (run_ids evs) <-> In (C04.Run a) evs.
 Proof.
   unfold run_ids. rewrite in_flat_map. split.
